@@ -173,6 +173,56 @@ pub fn constructs(thorough: bool) -> Vec<Construct> {
     v
 }
 
+/// second level of nesting: every expression construct (<= 2 operands) as the first operand of
+/// every construct (<= 2 operands)
+pub fn nested_constructs() -> Vec<Construct> {
+    let base = constructs(false);
+    let inners: Vec<&Construct> = base.iter().filter(|c| c.expr.is_some() && c.slots <= 2 && !c.name.starts_with("mut:") && !c.name.starts_with("typefilter:")).collect();
+    let outers: Vec<&Construct> = base
+        .iter()
+        .filter(|c| c.slots <= 2 && !c.name.contains("shadow") && !c.name.starts_with("match-2types") && !c.name.starts_with("closure"))
+        .collect();
+    let mut out = Vec::new();
+    for inner in &inners {
+        for outer in &outers {
+            let ie = inner.expr.clone().unwrap();
+            let k = inner.slots;
+            let orender = outer.render.clone();
+            let oexpr = outer.expr.clone();
+            let oslots = outer.slots;
+            let compose = move |o: &[String], f: &Render| -> String {
+                let mut ops: Vec<String> = vec![format!("({})", ie(&o[..k]))];
+                ops.extend(o[k..k + oslots - 1].iter().cloned());
+                f(&ops)
+            };
+            let c1 = compose.clone();
+            let render: Render = Arc::new(move |o| c1(o, &orender));
+            let expr: Option<Render> = oexpr.map(|oe| {
+                let c2 = compose.clone();
+                let r: Render = Arc::new(move |o: &[String]| c2(o, &oe));
+                r
+            });
+            out.push(Construct { name: format!("{} of {}", outer.name, inner.name), slots: k + oslots - 1, render, expr });
+        }
+    }
+    out
+}
+
+/// reduced palette for the nested grid
+pub fn nested_types() -> Vec<Ty> {
+    vec![
+        Ty::Int,
+        Ty::Bool,
+        Ty::arr(Ty::Int),
+        Ty::Tup(vec![Ty::Int, Ty::Int]),
+        Ty::union([Ty::Int, Ty::Float]),
+        Ty::mutc(Ty::Int),
+        palette::t_iter(Ty::Int),
+        Ty::func(vec![Ty::Int], Ty::Int),
+        Ty::Str,
+    ]
+}
+
 const NAMES: [&str; 4] = ["a", "b", "c", "d"];
 
 pub fn program_typed(c: &Construct, tys: &[&Ty], ret: &str) -> String {
@@ -208,10 +258,16 @@ pub struct GridResult {
 /// C03 (d): every construct x every palette type assignment through the checker and `return_type()`.
 pub fn check_only(thorough: bool) -> GridResult {
     let types = if thorough { palette::thorough_types() } else { palette::quick_types() };
-    let cs = constructs(thorough);
+    let mut cs = constructs(thorough);
+    let first_nested = cs.len();
+    let ntypes = nested_types();
+    if thorough {
+        cs.extend(nested_constructs());
+    }
     let mut jobs: Vec<(usize, usize)> = Vec::new(); // (construct, assignment index)
     for (ci, c) in cs.iter().enumerate() {
-        let n = types.len().pow(c.slots as u32);
+        let base = if ci >= first_nested { ntypes.len() } else { types.len() };
+        let n = base.pow(c.slots as u32);
         for a in 0..n {
             jobs.push((ci, a));
         }
@@ -222,8 +278,9 @@ pub fn check_only(thorough: bool) -> GridResult {
         |(st, interp, samples), j| {
             let (ci, a) = jobs[j];
             let c = &cs[ci];
-            let idx = decode(a, types.len(), c.slots);
-            let tys: Vec<&Ty> = idx.iter().map(|&i| &types[i]).collect();
+            let pal = if ci >= first_nested { &ntypes } else { &types };
+            let idx = decode(a, pal.len(), c.slots);
+            let tys: Vec<&Ty> = idx.iter().map(|&i| &pal[i]).collect();
             let text = program_typed(c, &tys, "any");
             let before = st.accepted;
             crate::props::c03::probe(&text, interp, "std", false, st);
@@ -721,10 +778,16 @@ impl Ctx {
 /// Runs the whole grid (C01 / C02 share it).
 pub fn run_grid(thorough: bool) -> RunStats {
     let types = if thorough { palette::thorough_types() } else { palette::quick_types() };
-    let cs = constructs(thorough);
+    let mut cs = constructs(thorough);
+    let first_nested = cs.len();
+    let ntypes = nested_types();
+    if thorough {
+        cs.extend(nested_constructs());
+    }
     let mut jobs: Vec<(usize, usize)> = Vec::new();
     for (ci, c) in cs.iter().enumerate() {
-        let n = types.len().pow(c.slots as u32);
+        let base = if ci >= first_nested { ntypes.len() } else { types.len() };
+        let n = base.pow(c.slots as u32);
         for a in 0..n {
             jobs.push((ci, a));
         }
@@ -735,9 +798,20 @@ pub fn run_grid(thorough: bool) -> RunStats {
         |ctx, j| {
             let (ci, a) = jobs[j];
             let c = &cs[ci];
-            let idx = decode(a, types.len(), c.slots);
-            let tys: Vec<&Ty> = idx.iter().map(|&i| &types[i]).collect();
-            ctx.grid_point(c, &tys);
+            let pal = if ci >= first_nested { &ntypes } else { &types };
+            let idx = decode(a, pal.len(), c.slots);
+            let tys: Vec<&Ty> = idx.iter().map(|&i| &pal[i]).collect();
+            if ci >= first_nested {
+                // nested grid: fewer values per slot
+                let (r, p) = (ctx.max_rank, ctx.per_slot);
+                ctx.max_rank = 1;
+                ctx.per_slot = 3;
+                ctx.grid_point(c, &tys);
+                ctx.max_rank = r;
+                ctx.per_slot = p;
+            } else {
+                ctx.grid_point(c, &tys);
+            }
         },
     );
     let mut total = RunStats::default();
